@@ -90,6 +90,9 @@ INF = None
 # the explicit listing of an unbounded set extends this many steps beyond the
 # last query point (exclusions remove at most 3 consecutive points)
 MARGIN = 6
+# box sets have < 50 points and at most 3 consecutive excluded points, so a
+# legitimate recursion over excluded points needs < 40 frames
+RECURSION_ROOM = 80
 
 
 def pstr(spec):
@@ -480,12 +483,13 @@ def check_case(case, ctx: Ctx) -> CaseResult:
     if not big:
         # box sets have < 50 points: a recursion deeper than this never
         # terminates; fail it fast
-        sys.setrecursionlimit(_depth() + 400)
+        sys.setrecursionlimit(_depth() + RECURSION_ROOM)
     try:
         found = None
         for M in readings:
             res = _compare(seq, Expected(M, unbounded), U, window, cs, ce,
-                           whi, k, big, IntegerPoint, where)
+                           whi, k, 'one-off' if prog[0] == 'one' else
+                           'stepped', big, IntegerPoint, where)
             if not res:
                 return CaseResult([], nontrivial, classes)
             if found is None:
@@ -503,7 +507,8 @@ def check_case(case, ctx: Ctx) -> CaseResult:
     return CaseResult(viol, nontrivial, classes)
 
 
-def _compare(seq, exp, U, window, cs, ce, whi, k, big, IntegerPoint, where):
+def _compare(seq, exp, U, window, cs, ce, whi, k, kind, big, IntegerPoint,
+             where):
     """[] if all answers agree with `exp`, else [(method, qualifier, detail)]
     (first occurrence of each distinct (method, qualifier))."""
     out = {}
@@ -532,11 +537,14 @@ def _compare(seq, exp, U, window, cs, ce, whi, k, big, IntegerPoint, where):
     lo_u = U[0] if U else None
     hi_u = U[-1] if U else None
 
+    def qual_of(p):
+        return kind + ':' + rel(p)
+
     def rel(p):
         """where the query point lies w.r.t. the clipped progression"""
         if lo_u is None:
             return 'empty-set'
-        if p < lo_u - k:
+        if p < lo_u - k and kind == 'stepped':
             return 'more-than-a-step-below-start'
         if p < lo_u:
             return 'below-start'
@@ -551,7 +559,7 @@ def _compare(seq, exp, U, window, cs, ce, whi, k, big, IntegerPoint, where):
         if got[0] == 'ok':
             got = ('ok', bool(got[1]))
         if got != ('ok', want):
-            bad('is_valid', rel(p), p, got, want)
+            bad('is_valid', qual_of(p), p, got, want)
     if exp.pts:
         got = call('get_start_point')
         if got != ('ok', exp.pts[0]):
@@ -581,7 +589,9 @@ def _compare(seq, exp, U, window, cs, ce, whi, k, big, IntegerPoint, where):
                 # "None if out of bounds" may refer to the query point: both
                 # cycling implementations answer None beyond the stop point
                 continue
-            bad(name, rel(p), p, got, want)
+            bad(name, qual_of(p), p, got, want)
+            if got[0] == 'exc' and isinstance(got[1], RecursionError):
+                break    # recorded once; each repeat costs a full unwinding
     return list(out.values())
 
 
